@@ -17,13 +17,15 @@ def install(w):
                assumed=True)
 
     w.contract(f"{TC}.is_equal_type", params={"type_a": "ty", "type_b": "ty"}, returns="bool",
-               ensures=["result == EqT(type_a, type_b)"], props={"C13", "C20"})
+               ensures=["result == EqT(type_a, type_b)"], decreases="ty_rank(type_a)",
+               props={"C13", "C20"})
     w.contract(f"{TC}.is_type_sub_type_of",
                params={"schema": "schema", "maybe_subtype": "ty", "super_type": "ty"},
                returns="bool",
                ensures=["result == Sub(schema, maybe_subtype, super_type)",
                         "implies(InputTy(maybe_subtype) and InputTy(super_type),"
                         " result == Compat(maybe_subtype, super_type))"],
+               decreases="ty_rank(maybe_subtype) + ty_rank(super_type)",
                props={"C13", "C20"})
     w.contract(f"{VP}.allowed_variable_usage",
                params={"schema": "schema", "var_type": "ty", "var_default_value": "dyn",
@@ -39,4 +41,5 @@ def install(w):
                         " Compat(var_type, location_type))"],
                props={"C13"})
     w.contract(f"{OF}.do_types_conflict", params={"type1": "ty", "type2": "ty"}, returns="bool",
-               ensures=["result == (not SameShapeW(type1, type2))"], props={"C14"})
+               ensures=["result == (not SameShapeW(type1, type2))"],
+               decreases="ty_rank(type1) + ty_rank(type2)", props={"C14"})
